@@ -57,10 +57,10 @@ def run(an: Analysis, rep):
     collapse, expand, b2i, i2b = find_codec(an)
     for fmt, is_lt in FORMATS.items():
         lim = C.LINE_LIMITS[fmt]
-        r101(an, rep, collapse, expand, fmt, is_lt, lim)
-        r102(an, rep, expand, fmt, is_lt, lim)
-        r103(an, rep, collapse, expand, fmt, is_lt)
-    r104(an, rep, b2i, i2b)
+        rep.run(r101, an, rep, collapse, expand, fmt, is_lt, lim)
+        rep.run(r102, an, rep, expand, fmt, is_lt, lim)
+        rep.run(r103, an, rep, collapse, expand, fmt, is_lt)
+    rep.run(r104, an, rep, b2i, i2b)
     rep.assumptions += ["format limits as in Objects/lnotab_notes.txt (reference/contracts.py LINE_LIMITS)"]
     rep.extra["not_decided"] = "table arithmetic (items_to_mapping, mapping_to_items, cursor logic, zero-width entries, no-line runs, trailing entries)"
 
